@@ -25,7 +25,7 @@ type Clause struct {
 func (c *Clause) hasTag(p string) bool {
 	n := 0
 	for _, t := range c.Tags {
-		if strings.HasPrefix(t, "g:") {
+		if strings.HasPrefix(t, "g:") || t == "trusted" {
 			continue
 		}
 		n++
@@ -34,6 +34,16 @@ func (c *Clause) hasTag(p string) bool {
 		}
 	}
 	return n == 0
+}
+
+// trusted: the clause is assumed at call sites but not proved against the body (listed as an assumption)
+func (c *Clause) trusted() bool {
+	for _, t := range c.Tags {
+		if t == "trusted" {
+			return true
+		}
+	}
+	return false
 }
 
 // group: clauses tagged [g:name] are verified in a separate pass together with the untagged ones
